@@ -6,7 +6,7 @@
 (* SingletonInstances = TRUE models the classic breakage (instances cached *)
 (* per name); TLC then finds the FreshInstances counterexample.            *)
 (***************************************************************************)
-EXTENDS OpShape, OpIndex
+EXTENDS OpShape, OpIndex, OpRecurrent
 CONSTANTS SingletonInstances, MaxSteps
 VARIABLES insts,     \* sequence of [name, obj, attrs]: one entry per lookup; obj = identity of the operator object
           objs,      \* obj id -> attribute state (what Init wrote last)
@@ -17,15 +17,23 @@ vars == <<insts, objs, hist>>
 Templates ==
    {[name |-> "Flatten",   attrs |-> <<AI("axis", 0)>>], [name |-> "Flatten",   attrs |-> <<AI("axis", 2)>>], [name |-> "Flatten", attrs |-> <<>>],
     [name |-> "Transpose", attrs |-> <<AIs("perm", <<1, 0, 2>>)>>], [name |-> "Transpose", attrs |-> <<AIs("perm", <<2, 1, 0>>)>>],
-    [name |-> "Gather",    attrs |-> <<AI("axis", 1)>>], [name |-> "Gather", attrs |-> <<>>]}
+    [name |-> "Gather",    attrs |-> <<AI("axis", 1)>>], [name |-> "Gather", attrs |-> <<>>],
+    \* a list-valued attribute with a default: explicit activations on one instance, the defaults (sigmoid, tanh) on another
+    [name |-> "GRU", attrs |-> <<AI("hidden_size", 1), ASs("activations", <<"relu", "relu">>)>>], [name |-> "GRU", attrs |-> <<AI("hidden_size", 1)>>]}
 Names == {t.name : t \in Templates}
 ProbeX == Iota("f32", <<2, 2, 3>>, 0)
 ProbeI == T("i64", <<1>>, <<1>>)
-ProbeInputs(name) == IF name = "Gather" THEN <<ProbeX, ProbeI>> ELSE <<ProbeX>>
+\* GRU probe in the saturation regime: z = f(-2048) = 0 for sigmoid and relu alike, h~ = g(2048) = 1 (tanh) or 2048 (relu), H = (1 - z) h~
+GruX == T("f32", <<1, 1, 1>>, <<2048>>)
+GruW == T("f32", <<1, 3, 1>>, <<-1, 1, 1>>)
+GruR == T("f32", <<1, 3, 1>>, <<0, 0, 0>>)
+ProbeInputs(name) == IF name = "Gather" THEN <<ProbeX, ProbeI>> ELSE IF name = "GRU" THEN <<GruX, GruW, GruR>> ELSE <<ProbeX>>
 SemOf(name, attrs) ==
    CASE name = "Flatten"   -> SemFlatten(ProbeX, AttrV(attrs, "axis", 1))
      [] name = "Transpose" -> SemTranspose(ProbeX, attrs)
      [] name = "Gather"    -> SemGather(ProbeX, ProbeI, attrs)
+     \* a GRU that was never initialised has no hidden_size: only "no crash" is required of it
+     [] name = "GRU"       -> IF attrs = <<>> THEN NoCrash ELSE SemRecurrent("GRU", attrs, <<GruX, GruW, GruR>>, 2).allowed
 \* attribute state after Init(attrs) on a state old: Init only overwrites what the node carries
 InitState(name, old, attrs) == IF attrs = <<>> THEN old ELSE attrs
 
